@@ -84,7 +84,7 @@ static void lst_make_sequence(vp_rng_t* r, int mode, uint64_t idx, seq_t* s)
             break; }
         case 0: case 1: case 2: name = "valid-mode-x-datatype"; break;
         case 3: name = "path-length-lie"; vssref_put_be(b + hdr + 12, 2, (uint64_t)vp_rng_next(r)); break;
-        case 4: name = "path-length-max"; vssref_put_be(b + hdr + 12, 2, 65535); break;
+        case 4: name = "path-length-near-65535"; vssref_put_be(b + hdr + 12, 2, 65535 - (uint64_t)((idx >> 4) % 24)); break;   /* sums of header size and path size that wrap 16 bits */
         case 5: name = "value-length-lie"; n = build_valid(r, mode, tscf, b, amode & 1, 0x80 + (uint32_t)vp_rng_below(r, 12), 5, 65535, 7, 0); break;
         case 6: name = "truncate-any"; n = (size_t)vp_rng_below(r, n + 1); break;
         case 7: name = "truncate-0-64"; n = (size_t)vp_rng_below(r, 65); break;
